@@ -570,6 +570,9 @@ def _packets_in(c, lo, hi):
     return out
 
 
+TOTAL_OPS = ("shell", "exec_out", "root", "reboot")     # the operations that take a whole-command limit `timeout_s` (a "t" on any other op is ignored by the runner)
+
+
 def o_c11(scn, obs, runner):
     """Every wait is bounded (theorem C11_ioRead_bound: R + 2(R + max(D, tau)) whatever traffic arrives); an operation performs one
     wait per packet DELIVERED to it (its own streams' packets / handshake packets) plus one failing wait plus its close handshake.
@@ -587,7 +590,7 @@ def o_c11(scn, obs, runner):
         lo = prev_in.get(ci, 0) if op["op"] != "connect" else 0
         hi = o.get("inoff", 0)
         prev_in[ci] = hi
-        rt, tt, t = op.get("rt", 10240), op.get("tt"), op.get("t")
+        rt, tt, t = op.get("rt", 10240), op.get("tt"), (op.get("t") if op["op"] in TOTAL_OPS else None)
         if tt is None:
             tt = scn.get("dtt")
         if rt is None or rt < 0 or (tt is not None and tt < 0) or (t is not None and t < 0):
@@ -650,7 +653,7 @@ def o_c11_packet(scn, obs, runner):
         t_lo, t_hi = prev_now, o["now"]
         prev_now = o["now"]
         ci = o.get("conn", -1)
-        rt, tt, t = op.get("rt", 10240), op.get("tt"), op.get("t")
+        rt, tt, t = op.get("rt", 10240), op.get("tt"), (op.get("t") if op["op"] in TOTAL_OPS else None)
         if tt is None:
             tt = scn.get("dtt")
         if rt is None or rt < 0 or (tt is not None and tt < 0) or (t is not None and t < 0) or o["res"] == "err Hang" or not (0 <= ci < len(runner.link.used)):
@@ -685,7 +688,7 @@ def o_c11_total(scn, obs, runner):
     for i, (op, o) in enumerate(zip(scn["ops"], obs)):
         elapsed = o["now"] - prev_now
         prev_now = o["now"]
-        rt, tt, t = op.get("rt", 10240), op.get("tt"), op.get("t")
+        rt, tt, t = op.get("rt", 10240), op.get("tt"), (op.get("t") if op["op"] in TOTAL_OPS else None)
         if tt is None:
             tt = scn.get("dtt")
         if op["op"] not in ("shell", "exec_out", "root") or t is None or t < 0 or rt is None or rt < 0 or (tt is not None and tt < 0):
